@@ -140,3 +140,8 @@ func lemmaNoAbortHDel(db *RockDB, ts int64, key []byte, args [][]byte) (error, b
 	_, err := db.HDel(ts, key, args...)
 	return err, IsNeedAbortError(err)
 }
+
+func lemmaExpTimeKeyRoundTrip(dataType byte, key []byte, when int64) (byte, []byte, int64, error) {
+	tk := expEncodeTimeKey(dataType, key, when)
+	return expDecodeTimeKey(tk)
+}
